@@ -3,11 +3,10 @@
 
 use crate::gen;
 use crate::mon::{guard, h2, par_shards, Ctx, Local, Outcome, Report};
-use crate::props::c01::wd_of;
 use crate::refcal as rc;
 use crate::refinst::{self as ri, RDt};
 use crate::rng::Rng;
-use chrono::{DateTime, Datelike, Days, FixedOffset, MappedLocalTime, Months, NaiveDateTime, NaiveTime, TimeZone, Timelike, Utc};
+use chrono::{DateTime, Datelike, Days, FixedOffset, MappedLocalTime, Months, NaiveTime, TimeZone, Timelike, Utc};
 use serde_json::{json, Value};
 use std::collections::hash_map::DefaultHasher;
 use std::hash::{Hash, Hasher};
